@@ -18,7 +18,8 @@ StaleStates == {[GoodState(d, p) EXCEPT !.hist = "updp", !.skew = k] : d \in {"o
 
 \* (states, request distance) blocks: wide in one dimension, narrow in the other
 Blocks == IF Tier = "thorough"
-          THEN << [S |-> AbsStates(2, Mags), k |-> 2] >>
+          THEN << [S |-> AbsStates(2, Mags), k |-> 1],
+                  [S |-> {s \in AbsStates(2, Mags) : s.pol = 1} \cup AbsStates(1, Mags), k |-> 2] >>
           ELSE << [S |-> AbsStates(1, Mags) \cup StaleStates, k |-> 1],
                   [S |-> {s \in AbsStates(1, Mags) : s.pol = 1 /\ s = [GoodState(s.dir, 1) EXCEPT !.mag = s.mag]},
                    k |-> 2] >>
